@@ -761,10 +761,14 @@ C12(cfg, obs) ==
         others == {Q \in KS \ {K} : attached(Q, a)}
         stops == {b \in a..nst.ret[a] : obs[b].to \in US /\ IsCall(obs[b]) /\ IsEndT(obs[b].t)
                     /\ InsideP(nst.par, b, a)}
-    IN IF others = {}
+    IN (IF others = {}
        THEN (IF (\E u \in US : alive(u, a) /\ UGreetedBefore(obs, u, a)) /\ stops = {}
              THEN {W("C12", "upstream_not_disposed", a, K, cfg, cx(a))} ELSE {})
-       ELSE {W("C12", "upstream_disposed_early", b, K, cfg, cx(b)) : b \in stops}
+       ELSE {W("C12", "upstream_disposed_early", b, K, cfg, cx(b)) : b \in stops})
+       \cup
+       \* ... and never after it has ended by itself (e.g. a detach from inside the end fan-out)
+       {W("C12", "upstream_disposed_after_end", b, K, cfg, cx(b)) :
+          b \in {b \in stops : USelfEndedBefore(obs, obs[b].to, b)}}
     : a \in {a \in Calls(obs) : obs[a].fr \in KS /\ obs[a].to = "S" /\ IsEndT(obs[a].t)
                /\ LiveAt(obs, obs[a].fr, a) /\ nst.ret[a] <= Len(obs)
                /\ (~multi \/ ~\E i \in ucalls : InsideP(nst.par, a, i) /\ \E i2 \in ucalls : InsideP(nst.par, i2, i))}}
